@@ -247,6 +247,9 @@ def showincludes(ck, ctx):
         cb = F.body(clo[2]) if clo[0] == "agg" and clo[1] == "closure" else None
         tab = BT.predicate_table(cb, 2) if cb is not None else {}
         okspan = tab.get(0, tab.get(False)) == [32] and not tab.get(None)
+        # scanned from the front: the receiver is a plain .iter() of the rest of the line
+        chain = [c[1].split("::")[-1] for c in calls_in(ER.arg(pbb, 0)) if "Iterator" in c[1] or c[1].startswith(("core::slice::", "std::iter::", "std::slice::"))]
+        okspan = okspan and [x for x in chain if x not in ("iter", "strip_prefix", "split", "next", "into_iter")] == []
         det = "predicate false exactly for %s" % tab.get(0, tab.get(False))
         uo = [(bb, t) for bb, t in eb.calls() if callee_of(t).endswith("Option::unwrap_or")]
         okspan = okspan and len(uo) == 1 and ER.arg(uo[0][0], 1) == ("const", 0) and any(c[3] == pbb for c in calls_in(ER.arg(uo[0][0], 0)))
